@@ -6,6 +6,7 @@ import (
 	"errors"
 	"fmt"
 	"reflect"
+	"sync"
 
 	jsonrpc "github.com/filecoin-project/go-jsonrpc"
 
@@ -188,9 +189,18 @@ func (ErrSvc) ValErr(kind int, msg string, a int) (string, error) {
 	return "nonzero-value", mkErr(kind, msg, a)
 }
 
+// ChanErr fails while (also) returning a live channel.
+func (ErrSvc) ChanErr(ctx context.Context, kind int, msg string, a int) (<-chan int, error) {
+	ch := make(chan int, 1)
+	ch <- a
+	close(ch)
+	return ch, mkErr(kind, msg, a)
+}
+
 type errClient struct {
 	ErrOnly func(kind int, msg string, a int) error
 	ValErr  func(kind int, msg string, a int) (string, error)
+	ChanErr func(ctx context.Context, kind int, msg string, a int) (<-chan int, error)
 }
 
 // registration tables
@@ -280,6 +290,9 @@ func (c11) Plan(tier string, seed int64) []core.Scenario {
 		for t := 0; t < tCount; t++ {
 			for _, tr := range []string{"ws", "http", "custom"} {
 				out = append(out, core.Scenario{Kind: "errors", Seed: seed*256203221 + int64(len(out)), N: map[string]int{"table": t, "n": 400}, S: map[string]string{"transport": tr}})
+				if t == tSame {
+					out = append(out, core.Scenario{Kind: "errors", Seed: seed*256203221 + int64(len(out)), N: map[string]int{"table": t, "n": 120, "conc": 16}, S: map[string]string{"transport": tr}})
+				}
 			}
 		}
 	}
@@ -317,6 +330,32 @@ func (c11) Run(sc core.Scenario) core.Result {
 	defer closer()
 	rng := sc.Rand()
 	var sample interface{}
+	if sc.I("conc") > 0 {
+		c11Concurrent(sc, r, &cl, t, tr)
+		return r.Result()
+	}
+	if tr == "ws" {
+		// a channel-returning method whose handler returns a live channel together with an error
+		for _, kind := range []int{kNew, kEVal, kMPtr, kCodecS, kNil} {
+			ctx, cancel := context.WithCancel(context.Background())
+			ch, err := cl.ChanErr(ctx, kind, "chan+err", 7)
+			if kind == kNil {
+				if err != nil || ch == nil {
+					r.Violate("nil-became-error", "ws table=%s: ChanErr with nil error returned (%v, %v)", c11TableName[t], ch != nil, err)
+				}
+			} else {
+				if err == nil {
+					r.Violate("error-became-nil:"+c11KindName[kind], "ws table=%s: a channel-returning handler failed with %s (and also returned a channel) but the caller's error is nil", c11TableName[t], c11KindName[kind])
+				}
+				if ch != nil {
+					r.Violate("nonzero-with-error", "ws table=%s: caller got a non-nil channel alongside the error %v", c11TableName[t], err)
+				}
+			}
+			cancel()
+			r.Obs("calls", 1)
+			r.AddKey(fmt.Sprintf("%s|%s|%s|chan", tr, c11TableName[t], c11KindName[kind]))
+		}
+	}
 	for i := 0; i < sc.I("n"); i++ {
 		kind := rng.Intn(kCount)
 		msg := strPool[rng.Intn(len(strPool))]
@@ -455,6 +494,54 @@ func (c11) Run(sc core.Scenario) core.Result {
 	r.Key(fmt.Sprintf("%s %s %d", tr, c11TableName[t], sc.Seed%1000), true)
 	r.Sample(sample)
 	return r.Result()
+}
+
+// c11Concurrent: many failing calls overlap; every caller must get the error of its own call, intact.
+func c11Concurrent(sc core.Scenario, r *core.R, cl *errClient, t int, tr string) {
+	var wg sync.WaitGroup
+	workers := sc.I("conc")
+	for w := 0; w < workers; w++ {
+		w := w
+		wg.Add(1)
+		go func() {
+			defer wg.Done()
+			rng := core.Scenario{Seed: sc.Seed + int64(w)*131}.Rand()
+			for i := 0; i < sc.I("n"); i++ {
+				kind := []int{kMPtr, kMVal, kCodecS, kCodecD, kNew}[rng.Intn(5)]
+				msg := fmt.Sprintf("w%d-i%d-%s", w, i, strPool[rng.Intn(8)])
+				a := w*100000 + i
+				orig := mkErr(kind, msg, a)
+				o := Go("c", func() (string, error) { return "", cl.ErrOnly(kind, msg, a) })
+				if !o.Wait(core.Grace) {
+					r.Violate("error-call-hang", "%s table=%s: a failing call (%s) never returned while %d workers issue failing calls concurrently", tr, c11TableName[t], c11KindName[kind], workers)
+					return
+				}
+				got := o.Err
+				r.Obs("calls", 1)
+				if got == nil {
+					r.Violate("error-became-nil:"+c11KindName[kind], "%s table=%s concurrent: handler returned %T but the caller's error is nil", tr, c11TableName[t], orig)
+					return
+				}
+				if kind == kNew {
+					var g *jsonrpc.JSONRPCError
+					if !errors.As(got, &g) || g.Message != msg {
+						r.Violate("message-changed:errors.New", "%s table=%s concurrent: caller got %T %q for handler message %q", tr, c11TableName[t], got, core.Trunc(got.Error(), 80), msg)
+						return
+					}
+					continue
+				}
+				if reflect.TypeOf(got) != reflect.TypeOf(orig) || got.Error() != orig.Error() {
+					r.Violate("content-lost:"+c11KindName[kind], "%s table=%s, %d workers failing concurrently: handler returned %T %q, caller got %T %q", tr, c11TableName[t], workers, orig, core.Trunc(orig.Error(), 80), got, core.Trunc(got.Error(), 80))
+					return
+				}
+			}
+		}()
+	}
+	done := make(chan struct{})
+	go func() { wg.Wait(); close(done) }()
+	core.WaitCh(done, 10*core.Grace)
+	r.Key(fmt.Sprintf("%s %s concurrent x%d", tr, c11TableName[t], workers), true)
+	r.Sample(map[string]interface{}{"transport": tr, "table": c11TableName[t], "concurrent_workers": workers, "failing_calls_each": sc.I("n")})
 }
 
 func clientTypeFor(t int, code int) reflect.Type {
